@@ -28,6 +28,10 @@ const T_INT: u8 = 0; const T_UINT: u8 = 1; const T_BOOL: u8 = 2; const T_FLOAT: 
 const T_VAR: u8 = 5; const T_STRUCT: u8 = 6; const T_LIST: u8 = 7; const T_FSL: u8 = 8; const T_REE: u8 = 9;
 /// Map(key, value): not modelled byte for byte; the specification treats it as List<Struct<key, value>> with non-null entries
 const T_MAP: u8 = 10;
+/// IntervalDayTime (param 0: days i32, milliseconds i32) / IntervalMonthDayNano (param 1: months i32, days i32, nanoseconds i64);
+/// the value is Val::Struct of the signed components
+const T_IV: u8 = 11;
+fn iv_widths(param: usize) -> &'static [usize] { if param == 0 { &[4, 4] } else { &[4, 4, 8] } }
 
 impl Ty {
     fn leaf(code: u8, param: usize, variant: u8, dict: u8) -> Ty { Ty { code, param, variant, dict, kids: vec![] } }
@@ -87,6 +91,8 @@ impl Ty {
                 match v { 0 => DataType::List(f), 1 => DataType::LargeList(f), 2 => DataType::ListView(f), _ => DataType::LargeListView(f) }
             }
             (T_FSL, n, _) => DataType::FixedSizeList(Arc::new(Field::new("item", self.kids[0].dtype(strip_dict), true)), n as i32),
+            (T_IV, 0, _) => DataType::Interval(IntervalUnit::DayTime),
+            (T_IV, _, _) => DataType::Interval(IntervalUnit::MonthDayNano),
             (T_MAP, _, _) => DataType::Map(Arc::new(Field::new("entries", DataType::Struct(vec![
                 Field::new("keys", self.kids[0].dtype(strip_dict), false), Field::new("values", self.kids[1].dtype(strip_dict), true)].into()), false)), false),
             (T_REE, _, v) => {
@@ -111,6 +117,7 @@ impl Ty {
             T_STRUCT => format!("S({})", self.kids.iter().map(|k| k.short()).collect::<Vec<_>>().join(",")),
             T_LIST => format!("L{}({})", self.variant, self.kids[0].short()),
             T_FSL => format!("F({})", self.kids[0].short()),
+            T_IV => format!("iv{}", self.param),
             T_MAP => format!("M({},{})", self.kids[0].short(), self.kids[1].short()),
             _ => format!("R({})", self.kids[0].short()),
         };
@@ -125,6 +132,7 @@ fn write_val(ty: &Ty, v: &Val, out: &mut Vec<BigInt>) {
         Val::Null => out.push(0.into()),
         Val::Int(z) => { out.push(1.into()); out.push(z.clone()); }
         Val::Bytes(b) => { out.push(1.into()); out.push(b.len().into()); out.extend(b.iter().map(|x| BigInt::from(*x))); }
+        Val::Struct(vs) if ty.code == T_IV => { out.push(1.into()); for x in vs { let Val::Int(z) = x else { panic!("interval component") }; out.push(z.clone()); } }
         Val::Struct(vs) => { out.push(1.into()); for (k, x) in ty.kids.iter().zip(vs) { write_val(k, x, out); } }
         Val::List(vs) => { out.push(1.into()); out.push(vs.len().into()); for x in vs { write_val(&ty.kids[0], x, out); } }
     }
@@ -143,6 +151,7 @@ fn parse_val(ty: &Ty, t: &[BigInt], pos: &mut usize) -> Val {
             Val::Bytes(b)
         }
         T_STRUCT => Val::Struct(ty.kids.iter().map(|k| parse_val(k, t, pos)).collect()),
+        T_IV => { let k = iv_widths(ty.param).len(); let v = t[*pos..*pos + k].iter().map(|z| Val::Int(z.clone())).collect(); *pos += k; Val::Struct(v) }
         _ => { let n = t[*pos].to_usize().unwrap(); *pos += 1; Val::List((0..n).map(|_| parse_val(&ty.kids[0], t, pos)).collect()) }
     }
 }
@@ -347,8 +356,18 @@ fn rand_val(ty: &Ty, g: &mut Rng, c: &GenCfg) -> Val {
         T_VAR => { let n = rand_len(g, c.big); Val::Bytes(if ty.is_utf8() { rand_utf8(g, n) } else { rand_bytes(g, n) }) }
         T_STRUCT => Val::Struct(ty.kids.iter().map(|k| rand_val(k, g, c)).collect()),
         T_LIST => { let n = [0, 0, 1, 1, 2, 3, 5][g.below(7)]; rand_list(&ty.kids[0], n, g, c) }
+        T_IV => Val::Struct(iv_widths(ty.param).iter().map(|w| Val::Int(rand_comp(*w, g))).collect()),
         T_MAP => { let n = [0, 0, 1, 1, 2, 3][g.below(6)]; Val::List((0..n).map(|_| rand_entry(ty, g, c)).collect()) }
         _ => rand_list(&ty.kids[0], ty.param, g, c),
+    }
+}
+/// a signed interval component: extremes, small values of both signs, random
+fn rand_comp(w: usize, g: &mut Rng) -> BigInt {
+    let bits = 8 * w;
+    match g.below(8) {
+        0 => -pow2(bits - 1), 1 => pow2(bits - 1) - 1, 2 => BigInt::zero(), 3 => BigInt::from(-1), 4 => BigInt::one(),
+        5 => BigInt::from(g.range(-3, 3)),
+        _ => BigInt::from_signed_bytes_le(&g.bytes(w)),
     }
 }
 /// a map entry: the key is never null
@@ -395,6 +414,18 @@ fn mutate_val(ty: &Ty, v: &Val, g: &mut Rng, c: &GenCfg) -> Val {
                 _ => if !vs.is_empty() { let i = if g.bool() { vs.len() - 1 } else { g.below(vs.len()) }; vs[i] = mutate_val(&ty.kids[0], &vs[i], g, c); }
             }
             Val::List(vs)
+        }
+        (T_IV, Val::Struct(vs)) => {
+            // keep the leading components, change a trailing one: sign flipped, extreme, or +-1
+            let ws = iv_widths(ty.param);
+            let mut vs = vs.clone();
+            let i = if g.chance(2, 3) { ws.len() - 1 } else { g.below(ws.len()) };
+            let bits = 8 * ws[i];
+            if let Val::Int(z) = &vs[i] {
+                let n: BigInt = match g.below(6) { 0 => -z.clone(), 1 => -z.clone() - 1, 2 => z + 1, 3 => z - 1, 4 => -pow2(bits - 1), _ => pow2(bits - 1) - 1 };
+                vs[i] = Val::Int(if n < -pow2(bits - 1) || n >= pow2(bits - 1) { z.clone() } else { n });
+            }
+            Val::Struct(vs)
         }
         (T_MAP, Val::List(vs)) => {
             let mut vs = vs.clone();
@@ -528,6 +559,18 @@ fn build(ty: &Ty, vals: &[Val], g: &mut Rng) -> ArrayRef {
                 } else {
                     Arc::new(LargeListViewArray::try_new(field, offs.iter().map(|o| *o as i64).collect(), sizes.iter().map(|o| *o as i64).collect(), child, nulls).unwrap())
                 }
+            }
+        }
+        T_IV => {
+            let comp = |v: &Val, k: usize, g: &mut Rng| -> BigInt { match v { Val::Struct(vs) => match &vs[k] { Val::Int(z) => z.clone(), _ => panic!("interval component") },
+                                                                        _ => BigInt::from_signed_bytes_le(&g.bytes(iv_widths(ty.param)[k])) } };
+            let nulls = nulls_of(vals, g);
+            if ty.param == 0 {
+                let v: Vec<arrow_buffer::IntervalDayTime> = vals.iter().map(|x| arrow_buffer::IntervalDayTime::new(i32::from_big(&comp(x, 0, g)), i32::from_big(&comp(x, 1, g)))).collect();
+                Arc::new(IntervalDayTimeArray::new(ScalarBuffer::from(v), nulls))
+            } else {
+                let v: Vec<arrow_buffer::IntervalMonthDayNano> = vals.iter().map(|x| arrow_buffer::IntervalMonthDayNano::new(i32::from_big(&comp(x, 0, g)), i32::from_big(&comp(x, 1, g)), i64::from_big(&comp(x, 2, g)))).collect();
+                Arc::new(IntervalMonthDayNanoArray::new(ScalarBuffer::from(v), nulls))
             }
         }
         T_MAP => {
@@ -665,6 +708,16 @@ fn flatten(ty: &Ty, arr: &dyn Array) -> Vec<Val> {
             };
             (0..n).map(|i| if arr.is_null(i) { Val::Null } else { Val::List(child[ranges[i].0..ranges[i].1].to_vec()) }).collect()
         }
+        T_IV => {
+            assert_eq!(arr.data_type(), &ty.plain_dtype(true));
+            if ty.param == 0 {
+                let a = arr.as_primitive::<IntervalDayTimeType>();
+                (0..n).map(|i| if a.is_null(i) { Val::Null } else { let v = a.value(i); Val::Struct(vec![Val::Int(v.days.into()), Val::Int(v.milliseconds.into())]) }).collect()
+            } else {
+                let a = arr.as_primitive::<IntervalMonthDayNanoType>();
+                (0..n).map(|i| if a.is_null(i) { Val::Null } else { let v = a.value(i); Val::Struct(vec![Val::Int(v.months.into()), Val::Int(v.days.into()), Val::Int(v.nanoseconds.into())]) }).collect()
+            }
+        }
         T_MAP => {
             let a = arr.as_map();
             let keys = flatten(&ty.kids[0], a.keys().as_ref());
@@ -691,7 +744,9 @@ fn flatten(ty: &Ty, arr: &dyn Array) -> Vec<Val> {
 }
 
 // ------------------------------------------------------------------------------------------ batches
-pub struct Batch { tys: Vec<Ty>, opts: Vec<SortOptions>, rows: Vec<Vec<Val>>, prefix: usize, suffix: usize, seed: u64, split: usize, mode: u64, sel: Vec<usize> }
+pub struct Batch { tys: Vec<Ty>, opts: Vec<SortOptions>, rows: Vec<Vec<Val>>, prefix: usize, suffix: usize, seed: u64, split: usize, mode: u64, sel: Vec<usize>,
+                   /// mode bit 4: rows bk..bk+bm are taken from `from_binary(try_into_binary().slice(bk, bm))` (non-zero first offset)
+                   bk: usize, bm: usize }
 
 impl Batch {
     fn to_args(&self) -> Args {
@@ -700,7 +755,7 @@ impl Batch {
         let mut v = Vec::new();
         for r in &self.rows { for (ty, x) in self.tys.iter().zip(r) { write_val(ty, x, &mut v); } }
         vec![t, o, g(self.rows.len()), v,
-             vec![self.prefix.into(), self.suffix.into(), self.seed.into(), self.split.into(), self.mode.into()],
+             vec![self.prefix.into(), self.suffix.into(), self.seed.into(), self.split.into(), self.mode.into(), self.bk.into(), self.bm.into()],
              self.sel.iter().map(|i| BigInt::from(*i)).collect()]
     }
     fn from_args(a: &Args) -> Batch {
@@ -715,7 +770,8 @@ impl Batch {
         assert_eq!(p, a[3].len());
         let l = &a[4];
         Batch { tys, opts, rows, prefix: l[0].to_usize().unwrap(), suffix: l[1].to_usize().unwrap(), seed: l[2].to_u64().unwrap(),
-                split: l[3].to_usize().unwrap(), mode: l[4].to_u64().unwrap(), sel: a[5].iter().map(|x| x.to_usize().unwrap()).collect() }
+                split: l[3].to_usize().unwrap(), mode: l[4].to_u64().unwrap(), sel: a[5].iter().map(|x| x.to_usize().unwrap()).collect(),
+                bk: l.get(5).map(|x| x.to_usize().unwrap()).unwrap_or(0), bm: l.get(6).map(|x| x.to_usize().unwrap()).unwrap_or(0) }
     }
     fn fields(&self) -> Vec<SortField> {
         self.tys.iter().zip(&self.opts).map(|(t, o)| SortField::new_with_options(t.dtype(false), *o)).collect()
@@ -837,7 +893,7 @@ fn rand_leaf(g: &mut Rng, allow_dict: bool) -> Ty {
         6 => Ty::leaf(T_UINT, [1, 2, 4, 8][g.below(4)], 0, 0),
         7 => Ty::leaf(T_BOOL, 0, 0, 0),
         8 | 9 => Ty::leaf(T_FLOAT, [2, 4, 8, 8][g.below(4)], 0, 0),
-        10 => Ty::leaf(T_FSB, [0, 1, 2, 3, 8, 17][g.below(6)], 0, 0),
+        10 => if g.bool() { Ty::leaf(T_FSB, [0, 1, 2, 3, 8, 17][g.below(6)], 0, 0) } else { Ty::leaf(T_IV, g.below(2), 0, 0) },
         _ => Ty::leaf(T_VAR, 0, g.below(6) as u8, 0),
     };
     if allow_dict && t.code != T_BOOL && g.chance(1, 6) { t.dict = 1 + g.below(4) as u8; }
@@ -900,7 +956,13 @@ fn layout(b: &mut Batch, g: &mut Rng) {
     b.suffix = if g.bool() { 0 } else { 1 + g.below(3) };
     b.seed = g.next() >> 1;
     b.split = g.below(n + 1);
-    b.mode = g.below(16) as u64;
+    b.mode = g.below(32) as u64;
+    if n == 0 { b.mode &= 15; }
+    if b.mode & 16 != 0 {
+        // k > 0 most of the time; slices ending at the end and slices in the middle
+        b.bk = if g.chance(1, 8) { 0 } else { 1 + g.below(n) };
+        b.bm = match g.below(3) { 0 => n - b.bk, _ => g.below(n - b.bk + 1) };
+    }
     let k = match g.below(6) { 0 => 0, 1 => n, _ => g.below(2 * n + 1) };
     b.sel = if n == 0 { vec![] } else { (0..k).map(|_| g.below(n)).collect() };
 }
@@ -925,7 +987,7 @@ pub fn generate(tier: &str, r: &mut Rng, emit: &mut dyn FnMut(Case)) {
         for o in all_opts() {
             for rep in 0..scale {
                 let n = if rep == 0 { 24 } else { r.below(40) };
-                let mut b = Batch { tys: vec![ty.clone()], opts: vec![o], rows: gen_rows(std::slice::from_ref(ty), n, r, &cfg), prefix: 0, suffix: 0, seed: 0, split: 0, mode: 0, sel: vec![] };
+                let mut b = Batch { tys: vec![ty.clone()], opts: vec![o], rows: gen_rows(std::slice::from_ref(ty), n, r, &cfg), prefix: 0, suffix: 0, seed: 0, split: 0, mode: 0, sel: vec![], bk: 0, bm: 0 };
                 layout(&mut b, r);
                 emit_batch(&b, r, emit, 7);
             }
@@ -951,7 +1013,7 @@ pub fn generate(tier: &str, r: &mut Rng, emit: &mut dyn FnMut(Case)) {
                 if len > 0 { let t = base[..len - 1].to_vec(); vals.push(Val::Bytes(if utf8 { sanitize_utf8(t) } else { t })); }
                 for _ in 0..6 { vals.push(Val::Bytes(mutate_bytes(&base, r, utf8))); }
                 if !utf8 { vals.push(Val::Bytes(vec![0; len])); vals.push(Val::Bytes(vec![0xFF; len])); vals.push(Val::Bytes(vec![0xFF; len + 1])); }
-                let mut b = Batch { tys: vec![ty.clone()], opts: vec![o], rows: vals.into_iter().map(|v| vec![v]).collect(), prefix: 0, suffix: 0, seed: 0, split: 0, mode: 0, sel: vec![] };
+                let mut b = Batch { tys: vec![ty.clone()], opts: vec![o], rows: vals.into_iter().map(|v| vec![v]).collect(), prefix: 0, suffix: 0, seed: 0, split: 0, mode: 0, sel: vec![], bk: 0, bm: 0 };
                 layout(&mut b, r);
                 emit_batch(&b, r, emit, 7);
             }
@@ -965,7 +1027,7 @@ pub fn generate(tier: &str, r: &mut Rng, emit: &mut dyn FnMut(Case)) {
         if ty.kids.is_empty() { ty = Ty { code: [T_STRUCT, T_LIST, T_FSL, T_REE][i % 4], param: if i % 4 == 0 { 1 } else { 2 }, variant: r.below(3) as u8, dict: 0, kids: vec![ty] }; }
         let o = all_opts()[i % 4];
         let n = r.below(20);
-        let mut b = Batch { tys: vec![ty.clone()], opts: vec![o], rows: gen_rows(std::slice::from_ref(&ty), n, r, &cfg), prefix: 0, suffix: 0, seed: 0, split: 0, mode: 0, sel: vec![] };
+        let mut b = Batch { tys: vec![ty.clone()], opts: vec![o], rows: gen_rows(std::slice::from_ref(&ty), n, r, &cfg), prefix: 0, suffix: 0, seed: 0, split: 0, mode: 0, sel: vec![], bk: 0, bm: 0 };
         layout(&mut b, r);
         emit_batch(&b, r, emit, 7);
     }
@@ -976,7 +1038,7 @@ pub fn generate(tier: &str, r: &mut Rng, emit: &mut dyn FnMut(Case)) {
         let tys: Vec<Ty> = (0..nf).map(|_| if r.chance(1, 4) { rand_ty(r, depth - 1) } else { rand_leaf(r, true) }).collect();
         let opts: Vec<SortOptions> = (0..nf).map(|_| all_opts()[r.below(4)]).collect();
         let n = match i % 10 { 0 => 0, 1 => 1, _ => 2 + r.below(if thorough { 40 } else { 22 }) };
-        let mut b = Batch { rows: gen_rows(&tys, n, r, &cfg), tys, opts, prefix: 0, suffix: 0, seed: 0, split: 0, mode: 0, sel: vec![] };
+        let mut b = Batch { rows: gen_rows(&tys, n, r, &cfg), tys, opts, prefix: 0, suffix: 0, seed: 0, split: 0, mode: 0, sel: vec![], bk: 0, bm: 0 };
         layout(&mut b, r);
         emit_batch(&b, r, emit, 7);
     }
@@ -988,7 +1050,7 @@ pub fn generate(tier: &str, r: &mut Rng, emit: &mut dyn FnMut(Case)) {
             let o = all_opts()[r.below(4)];
             let small = GenCfg { null_pct: if r.bool() { 0 } else { 10 }, big: false };
             let rows: Vec<Vec<Val>> = (0..n).map(|_| vec![if ty.code == T_VAR { if r.chance(1, 10) { Val::Null } else { { let l = 1 + r.below(3); Val::Bytes(rand_utf8(r, l)) } } } else { rand_val(&ty, r, &small) }]).collect();
-            let mut b = Batch { tys: vec![ty.clone()], opts: vec![o], rows, prefix: 0, suffix: 0, seed: 0, split: 0, mode: 0, sel: vec![] };
+            let mut b = Batch { tys: vec![ty.clone()], opts: vec![o], rows, prefix: 0, suffix: 0, seed: 0, split: 0, mode: 0, sel: vec![], bk: 0, bm: 0 };
             layout(&mut b, r);
             b.sel = (0..n).rev().collect();
             // the n x n matrix is too large here: bytes and round trip only
